@@ -145,6 +145,15 @@ pub fn run_case(out: &mut Out, case: &Case) {
             "c" => encode(&crypto, &op_key, sess_id, src, ctr, true),
             _ => encode(&crypto, &op_key, sess_id, src, ctr, false),
         };
+        if kind == "c" {
+            // a control message never meets a live (data) group session in this stream
+            matter.with_state(|st| {
+                let ids: std::vec::Vec<u32> = st.verif_sessions_mut().iter().map(|s| s.id()).collect();
+                for id in ids {
+                    st.verif_sessions_mut().remove(id);
+                }
+            });
+        }
         let mut bytes = match bytes {
             Ok(b) => b,
             Err(e) => {
